@@ -8,7 +8,10 @@ spec -> code    every index of every level of every emitted grid is evaluated in
 code -> spec    the laws of the statement are evaluated on the real outputs alone for a wider family: 2-axis grids, MGrid products,
                 FlatGrid (serial and nest: flat <-> multi index bijection), HEALPix, logarithmic radial grids, open grids from
                 SimpleOpenGrid: parent(children) = index, partition, coordinate and flat round trips, wrapped neighbourhoods,
-                volume never created"""
+                volume never created
+FlatGrid.tla    serial / nest flat indices of two-axis grids and sparse selections of nest indices (children / parents as array indices):
+                TLC: both orderings are bijections, in nest ordering the children of f are f S .. f S + S - 1; replayed into FlatGrid
+                and SparseGrid (C31_flat.py)"""
 import itertools
 
 import numpy as np
@@ -219,6 +222,8 @@ def run(ctx):
     viols, n2, ng = wider_family(env, ctx.quick)
     for msg in viols:
         ctx.violation(dict(kind="law", grid=msg.split(":")[0]), msg, replay=dict(what="law", grid=msg.split(":")[0]))
+    from props import C31_flat
+    C31_flat.run_flat(ctx, env)
     for k in range(ng):
         ctx.case(("law", k))
     ctx.traces += len(grids) + ng
@@ -232,7 +237,12 @@ def run(ctx):
 def replay(ctx, doc):
     env = _env()
     c = doc["case"]
-    if "grid" in c and isinstance(c["grid"], dict):
+    if "flat" in c:
+        from props import C31_flat
+        msgs, _ = C31_flat.replay_flat(c["flat"], env)
+        for msg in msgs:
+            ctx.violation(doc.get("key", dict(kind="flat-grid")), msg, replay=c)
+    elif "grid" in c and isinstance(c["grid"], dict):
         r = tlcmod.run("MultiGrid", "SPECIFICATION Spec\nINVARIANT Emit\n", workers=1, timeout=1200)
         rec = next(x for x in r.emitted if x["g"] == c["grid"])
         viols, _ = replay_grid(rec, env)
